@@ -660,3 +660,337 @@ pub fn run_size(out: &mut Out, rng: &mut Rng, thorough: bool) {
 		size_case(out, &v, *rng.pick(&[limit, limit, 1, 2, 3, 4]));
 	}
 }
+
+// ---------------------------------------------------------------------------
+// Engines `msgdecode` / `msgdec1`: xt's MessagePack -> MessagePack translation
+// (decoder as driven by xt's visitor, rmp_serde's serializer, the slice loop
+// and the reader loop), answered by `translate_slice` / `translate_reader` and
+// by the `transcode_stream` hook.
+
+use crate::xtapi::{translate, Fmt, Outcome, Supply};
+use serde::Deserialize;
+
+/// Maps the text of an xt error for MessagePack input to the model's token.
+pub fn err_kind(msg: &str) -> String {
+	let k = if msg == "unexpected end of MessagePack input" {
+		"trunc"
+	} else if msg == "invalid MessagePack marker in input" {
+		"marker"
+	} else if msg == "depth limit exceeded" {
+		"depth"
+	} else if msg.starts_with("IO error while reading marker: ") {
+		"eof-marker"
+	} else if msg.starts_with("IO error while reading data: ") {
+		"eof-data"
+	} else if msg == "wrong msgpack marker Reserved" {
+		"reserved"
+	} else if msg == "invalid type: newtype struct, expected any supported value" {
+		"ext"
+	} else {
+		return format!("other:{}", msg.replace(' ', "_"));
+	};
+	k.to_string()
+}
+
+pub fn verdict_token(o: &Outcome) -> String {
+	match &o.result {
+		Ok(()) => "ok".to_string(),
+		Err(e) => format!("err:{}", err_kind(e)),
+	}
+}
+
+/// Number of complete MessagePack values at the start of `bytes` and their
+/// total length (rmp_serde reading into `IgnoredAny`).
+pub fn complete_docs(bytes: &[u8]) -> (usize, usize) {
+	let mut pos = 0usize;
+	let mut n = 0usize;
+	while pos < bytes.len() {
+		let mut de = rmp_serde::Deserializer::new(std::io::Cursor::new(&bytes[pos..]));
+		de.set_max_depth(4096);
+		match serde::de::IgnoredAny::deserialize(&mut de) {
+			Ok(_) => {
+				pos += de.position() as usize;
+				n += 1;
+			}
+			Err(_) => break,
+		}
+	}
+	(n, pos)
+}
+
+pub fn reader_supply(rng: &mut Rng) -> Supply {
+	match rng.below(4) {
+		0 => Supply::Reader(vec![]),
+		1 => Supply::Reader(vec![1]),
+		2 => Supply::Reader(vec![rng.range(2, 9) as usize]),
+		_ => Supply::Reader((0..rng.range(2, 5)).map(|_| rng.range(1, 40) as usize).collect()),
+	}
+}
+
+/// One `msgdecode` case, plus the implementation-level statements that tie
+/// the two modes and the JSON rendering together.
+pub fn decode_case(out: &mut Out, rng: &mut Rng, bytes: &[u8]) {
+	let limit = xt::verif::MSGPACK_DEPTH_LIMIT;
+	let s = translate(bytes, &Supply::Slice, Some(Fmt::Msgpack), Fmt::Msgpack);
+	let supply = reader_supply(rng);
+	let r = translate(bytes, &supply, Some(Fmt::Msgpack), Fmt::Msgpack);
+	let (sn, sb) = complete_docs(&s.output);
+	let (rn, rb) = complete_docs(&r.output);
+	let answer = format!("slice:{}:{} reader:{}:{} enc:{}", verdict_token(&s), sn, verdict_token(&r), rn, hex(&r.output[..rb]));
+	out.count(&format!("msgdecode.slice.{}", verdict_token(&s)));
+	out.count(&format!("msgdecode.reader.{}", verdict_token(&r)));
+	out.case("msgdecode", &format!("{limit} {}", hex(bytes)), &answer, rn > 0 || !r.ok());
+
+	// slice vs reader at the byte level (the partial output of a failing
+	// document is not part of the model)
+	out.eval("msgpack_slice_eq_reader", &hex(bytes), !bytes.is_empty());
+	let describe = || format!("input {} ({}): slice {} / reader {}", hex(bytes), supply.describe(), s.describe(), r.describe());
+	if s.ok() != r.ok() {
+		out.fail("depth_verdict_slice_eq_reader", "", format!("verdicts differ: {}", describe()));
+	} else if s.ok() && s.output != r.output {
+		out.fail("msgpack_slice_eq_reader", "", format!("outputs differ: {}", describe()));
+	} else if !r.output.starts_with(&s.output) {
+		out.fail("msgpack_slice_prefix_of_reader", "", format!("slice output is not a prefix of the reader output: {}", describe()));
+	}
+	if s.ok() && (sb != s.output.len() || rb != r.output.len()) {
+		out.fail("msgpack_output_is_whole_documents", "", format!("a successful translation left an incomplete document: {}", describe()));
+	}
+	if s.output.len() < sb || (!s.ok() && s.output[..sb] != r.output[..sb.min(r.output.len())]) {
+		out.fail("msgpack_slice_prefix_of_reader", "", format!("complete documents differ: {}", describe()));
+	}
+
+	// document count seen through the JSON rendering: one line per document
+	let j = translate(bytes, &Supply::Slice, Some(Fmt::Msgpack), Fmt::Json);
+	let lines = j.output.iter().filter(|b| **b == b'\n').count();
+	out.eval("json_lines_eq_docs", &hex(bytes), j.ok());
+	let same_cause = match (&j.result, &s.result) {
+		(Ok(()), Ok(())) => true,
+		(Err(a), Err(b)) => a == b,
+		_ => false,
+	};
+	if same_cause {
+		out.count("msgdecode.json_count_comparable");
+		if lines != sn {
+			out.fail("json_lines_eq_docs", "", format!("input {}: {} JSON lines but {} MessagePack documents ({})", hex(bytes), lines, sn, j.describe()));
+		}
+	} else if j.ok() || lines > sn {
+		out.fail("json_lines_eq_docs", "", format!("input {}: JSON {} but MessagePack {}", hex(bytes), j.describe(), s.describe()));
+	}
+}
+
+/// One value through `transcode_stream` with the deserializer's depth counter
+/// set to `depth` (>= 1): what xt's visitor and rmp_serde do with one document.
+pub fn dec1_case(out: &mut Out, bytes: &[u8], depth: usize) {
+	let mut written = vec![];
+	let res = catch(|| {
+		let mut de = rmp_serde::Deserializer::new(std::io::Cursor::new(bytes));
+		de.set_max_depth(depth);
+		let ser = &mut rmp_serde::Serializer::new(&mut written);
+		let r = xt::verif::transcode_stream(ser, &mut de).map_err(|(_, text)| text);
+		(r, de.position() as usize)
+	});
+	let answer = match res {
+		Ok((Ok(()), pos)) => format!("ok:{pos}:{}", hex(&written)),
+		Ok((Err(text), _)) => format!("err:{}", err_kind(&text)),
+		Err(p) => format!("panic:{}", p.replace(' ', "_")),
+	};
+	out.count(&format!("msgdec1.{}", answer.split(':').take(2).collect::<Vec<_>>().join(".").split('.').take(if answer.starts_with("ok") { 1 } else { 2 }).collect::<Vec<_>>().join(".")));
+	out.case("msgdec1", &format!("0 {depth} {}", hex(bytes)), &answer, true);
+}
+
+pub fn run_decode(out: &mut Out, rng: &mut Rng, thorough: bool) {
+	let limit = xt::verif::MSGPACK_DEPTH_LIMIT;
+	let plain = GenOpts { ext: false, any_keys: true, max_len: 300 };
+	let with_ext = GenOpts { ext: true, any_keys: true, max_len: 40 };
+
+	// 1. Streams of valid documents, every spelling; then truncated / mutated.
+	let n_streams = if thorough { 5000 } else { 600 };
+	for i in 0..n_streams {
+		let docs = *rng.pick(&[0usize, 1, 1, 1, 2, 3, 5]);
+		let mut bytes = vec![];
+		for _ in 0..docs {
+			let o = if i % 7 == 0 { with_ext } else { plain };
+			let v = gen_value(rng, (i % 5) as u32, o);
+			spell(&v, rng, i % 3 == 0, &mut bytes);
+		}
+		if bytes.len() > 4000 {
+			continue;
+		}
+		decode_case(out, rng, &bytes);
+		if !bytes.is_empty() {
+			let d = *rng.pick(&[1usize, 2, 3, 4, 5, limit]);
+			// first document alone at a small depth budget
+			dec1_case(out, &bytes, d);
+			if bytes.len() <= 40 || thorough && bytes.len() < 120 {
+				for len in 1..bytes.len() {
+					if thorough || len % 2 == 1 {
+						decode_case(out, rng, &bytes[..len]);
+					}
+				}
+			} else {
+				for _ in 0..4 {
+					let len = rng.below(bytes.len() as u64) as usize;
+					decode_case(out, rng, &bytes[..len]);
+				}
+			}
+			for _ in 0..(if thorough { 4 } else { 2 }) {
+				let m = mutate(rng, &bytes);
+				decode_case(out, rng, &m);
+				dec1_case(out, &m, *rng.pick(&[1usize, 2, 3, limit]));
+			}
+		}
+	}
+
+	// 2. Every first byte alone and with tails.
+	for b in 0..=255u8 {
+		for tail in [&[][..], &[0x01], &[0x00, 0x01, 0xc0], &[0x00, 0x00, 0x00, 0x01, 0xc0, 0xc0], &[0xc3; 40]] {
+			let mut v = vec![b];
+			v.extend_from_slice(tail);
+			decode_case(out, rng, &v);
+			dec1_case(out, &v, 1);
+			dec1_case(out, &v, 2);
+		}
+	}
+	out.count("msgdecode.every_first_byte_x5_tails");
+
+	// 3. Strings over the UTF-8 boundary pool, all 4 spellings, as value and as key.
+	for s in STR_POOL {
+		for extra in 0..4u32 {
+			let mut v = vec![];
+			put_len(&mut v, s.len(), Some((0xa0, 31)), Some(0xd9), 0xda, 0xdb, extra);
+			v.extend_from_slice(s);
+			decode_case(out, rng, &v);
+			let mut m = vec![0x81];
+			m.extend_from_slice(&v);
+			m.push(0x01);
+			decode_case(out, rng, &m);
+		}
+	}
+	// every 1- and 2-byte string and a sample of 3- and 4-byte strings over
+	// UTF-8 class representatives
+	let reps: &[u8] = &[0x00, 0x41, 0x7f, 0x80, 0x8f, 0x90, 0x9f, 0xa0, 0xbf, 0xc0, 0xc1, 0xc2, 0xdf, 0xe0, 0xe1, 0xec, 0xed, 0xee, 0xef, 0xf0, 0xf1, 0xf3, 0xf4, 0xf5, 0xff];
+	for len in 1..=4usize {
+		let total = reps.len().pow(len as u32);
+		for idx in 0..total {
+			if len == 3 && !thorough && !rng.chance(1, 8) {
+				continue;
+			}
+			if len == 4 && !rng.chance(1, if thorough { 40 } else { 400 }) {
+				continue;
+			}
+			let mut k = idx;
+			let mut v = vec![0xa0 | len as u8];
+			for _ in 0..len {
+				v.push(reps[k % reps.len()]);
+				k /= reps.len();
+			}
+			dec1_case(out, &v, 1);
+		}
+	}
+	out.count("msgdec1.utf8_class_exhaustive_len_1_2");
+
+	// 4. Integer boundaries in every width.
+	for &n in UINT_EDGES {
+		for extra in 0..5u32 {
+			for signed in [false, true] {
+				let mut v = vec![];
+				let widths: &[(u8, u8, u32)] = if signed { &[(0xd0, 1, 7), (0xd1, 2, 15), (0xd2, 4, 31), (0xd3, 8, 63)] } else { &[(0xcc, 1, 8), (0xcd, 2, 16), (0xce, 4, 32), (0xcf, 8, 64)] };
+				if let Some((m, w, bits)) = widths.get(extra as usize) {
+					if *bits < 64 && n >> bits != 0 {
+						continue;
+					}
+					v.push(*m);
+					v.extend_from_slice(&n.to_be_bytes()[8 - *w as usize..]);
+					dec1_case(out, &v, 1);
+				}
+			}
+		}
+	}
+	for &n in NINT_EDGES {
+		for (m, w, min) in [(0xd0u8, 1usize, -128i64), (0xd1, 2, -32768), (0xd2, 4, -(1 << 31)), (0xd3, 8, i64::MIN)] {
+			if n >= min {
+				let mut v = vec![m];
+				v.extend_from_slice(&n.to_be_bytes()[8 - w..]);
+				dec1_case(out, &v, 1);
+			}
+		}
+	}
+
+	// 5. Nesting windows: every shape x every innermost value.
+	for name in SHAPE_NAMES.iter() {
+		for (_, core) in CORES.iter() {
+			for n in (limit - 6)..=(limit + 6) {
+				if !thorough && (n + name.len()) % 2 == 0 && (n < limit - 2 || n > limit + 1) {
+					continue;
+				}
+				let ws = shape(name, n, rng);
+				let bytes = nest(&ws, core, &[0xa1, 0x6b]);
+				decode_case(out, rng, &bytes);
+				if thorough {
+					// two documents: a shallow one, then the deep one
+					let mut two = vec![0x91, 0x01];
+					two.extend_from_slice(&bytes);
+					decode_case(out, rng, &two);
+				}
+			}
+			for n in 0..=(if thorough { 8usize } else { 4 }) {
+				let ws = shape(name, n, rng);
+				let bytes = nest(&ws, core, &[0xc0]);
+				for depth in n.max(1)..=n + 3 {
+					dec1_case(out, &bytes, depth);
+				}
+				if n >= 2 {
+					dec1_case(out, &bytes, n - 1);
+				}
+			}
+		}
+	}
+	out.count("msgdecode.depth_window_8_shapes_x6_cores");
+
+	// 6. Large counts with little data behind them.
+	for &m in &[0xdcu8, 0xde] {
+		for count in [0u16, 1, 2, 16, 0xffff] {
+			for payload in [0usize, 1, 2, 5, 40] {
+				let mut v = vec![m];
+				v.extend_from_slice(&count.to_be_bytes());
+				v.extend(std::iter::repeat(0x01).take(payload));
+				decode_case(out, rng, &v);
+			}
+		}
+	}
+	for &m in &[0xddu8, 0xdf, 0xdb, 0xc6, 0xc9] {
+		for count in [0u32, 1, 2, 17, 0x10000, 0xffff_ffff] {
+			for payload in [0usize, 1, 2, 5, 40] {
+				let mut v = vec![m];
+				v.extend_from_slice(&count.to_be_bytes());
+				v.extend(std::iter::repeat(0x01).take(payload));
+				decode_case(out, rng, &v);
+			}
+		}
+	}
+	// real large collections and strings (header width boundaries of the encoder)
+	for n in [15usize, 16, 17, 255, 256, 1000] {
+		let mut v = vec![0xdd];
+		v.extend_from_slice(&(n as u32).to_be_bytes());
+		v.extend(std::iter::repeat(0x05).take(n));
+		decode_case(out, rng, &v);
+		let mut m = vec![0xdf];
+		m.extend_from_slice(&(n as u32).to_be_bytes());
+		m.extend(std::iter::repeat(0x05).take(2 * n));
+		decode_case(out, rng, &m);
+		let mut s = vec![0xdb];
+		s.extend_from_slice(&(n as u32).to_be_bytes());
+		s.extend(std::iter::repeat(0x61).take(n));
+		decode_case(out, rng, &s);
+		let mut b = vec![0xc6];
+		b.extend_from_slice(&(n as u32).to_be_bytes());
+		b.extend(std::iter::repeat(0xfe).take(n));
+		decode_case(out, rng, &b);
+	}
+	for n in [65535usize, 65536] {
+		let mut s = vec![0xdb];
+		s.extend_from_slice(&(n as u32).to_be_bytes());
+		s.extend(std::iter::repeat(0x61).take(n));
+		decode_case(out, rng, &s);
+	}
+}
